@@ -146,6 +146,7 @@ impl<'tcx> Dumper<'tcx> {
                     ("k", esc("array")),
                     ("of", i.to_string()),
                     ("len", n.map(|n| n.to_string()).unwrap_or_else(|| "null".into())),
+                    ("lenp", if n.is_none() { esc(&format!("{}", len)) } else { "null".into() }),
                     ("s", s),
                 ])
             }
